@@ -3,7 +3,10 @@
 Directed monitor: the real compiler (or factory pipeline) is run on a generated problem of its supported kind; the reference
 planner vk.ref.search enumerates *all* valid plans of the compiled problem up to a length bound; each is mapped back through
 the library's `plan.replace_action_instances(result.map_back_action_instance)` and the result is judged on the original
-problem by the reference semantics vk.ref.seqsem + PDDL3 trace semantics vk.ref.traj."""
+problem by the reference semantics vk.ref.seqsem + PDDL3 trace semantics vk.ref.traj.
+
+Thorough tier only: the same judge() also runs on the repository's example problems (run_corpus, harness run_corpus /
+prepare_example), each shard taking its share of the examples after its generated cases."""
 from vk import env as _env  # noqa: F401
 from vk.core import h, simple_plan
 from vk.mon import compilers_harness as H
@@ -34,7 +37,11 @@ RULE = (
     "part of the cases to a valuation of the shared fluents that only the *compiled* problem reaches within the bound). "
     "evaluations = compiled plans enumerated (length <= k, k+1 with a compiler-added goal action), mapped back and judged. "
     "distinct_nontrivial = distinct (compiler, problem) pairs with >= 1 judged compiled plan of length >= 2 that uses at least "
-    "one action the compiler rewrote (structurally different from the action it maps back to, or a compiler-introduced action)."
+    "one action the compiler rewrote (structurally different from the action it maps back to, or a compiler-introduced action). "
+    "Thorough tier, corpus part (counters corpus:*): every example problem of unified_planning.test.examples of class Problem "
+    "inside the reference semantics (instantaneous actions only, no timed effects/goals, processes, simulated effects; size caps) "
+    "x every compiler / pipeline whose supports() accepts its kind, compiled plans enumerated up to max(4, length of the "
+    "example's shortest known valid plan) under node / plan / path caps and judged in the same way; witnesses carry 'example'."
 )
 ASSUMPTIONS = [
     "oracles vk/ref/seqsem.py, traj.py, search.py implement DESIGN §3.2/§3.3 faithfully; accessors of the model classes do not lie",
@@ -52,13 +59,25 @@ def plan(tier, seed):
 def run_shard(spec, res):
     for key in spec["cases"]:
         run_case(key, spec["tier"], res)
+    if spec["tier"] == "thorough":
+        # corpus part: this shard's share of the repository's example problems x every compiler / pipeline supporting them
+        run_corpus(res, shard=spec["shard"], nshards=H.CORPUS_SHARDS)
+
+
+def run_corpus(res, shard=0, nshards=1, only=None):
+    """Soundness on the example corpus: the compiled example is searched exhaustively up to the length of the example's
+    shortest known valid plan (node / plan / path caps, counted when hit); every compiled plan found is mapped back and
+    judged on the example by the reference semantics - the very same judge() as for generated problems."""
+    H.run_corpus(res, PROPERTY, lambda prep, ex, r: judge(prep, r), shard=shard, nshards=nshards, only=only)
 
 
 def replay(witness, res):
     # from the final recipe stored in the witness (robust against later changes of the generators); the generated case key is
     # only used when a witness carries no recipe
     tier = witness.get("tier", "quick")
-    if witness.get("recipe") and witness.get("compiler") in H.TARGETS:
+    if witness.get("example"):
+        run_corpus(res, only=(witness["example"], witness["compiler"]))
+    elif witness.get("recipe") and witness.get("compiler") in H.TARGETS:
         prep = H.prepare_from_recipe(witness["recipe"], witness["compiler"], witness["case_key"], tier, res)
         if prep is not None:
             judge(prep, res)
@@ -76,38 +95,32 @@ def judge(prep, res):
     key, tier = prep.key, prep.tier
     if prep is None or prep.result is None:
         return
-    tn = prep.target.name
+    tn = prep.target.name  # in mechanism strings
+    cn = prep.cprefix + tn  # in counters ("corpus:<compiler>" for the example-corpus part)
     b = prep.b
-    res.count(tn + ":compiled")
+    res.count(cn + ":compiled")
     try:
         lab = H.labels(prep)
         kc = b["k"] + (1 if any(l is None for l in lab) else 0)
         ps = plans(prep.space_c, kc, max_plans=b["max_plans_c"])
     except Unsupported:
-        res.count(tn + ":compiled_unsupported_by_oracle")
+        res.count(cn + ":compiled_unsupported_by_oracle")
         return
     if prep.space_c.init_status != "ok":
-        res.count(tn + ":compiled_initial_state_" + prep.space_c.init_status)
+        res.count(cn + ":compiled_initial_state_" + prep.space_c.init_status)
     if not ps.complete:
-        res.count(tn + ":enumeration_truncated")
+        res.count(cn + ":enumeration_truncated")
     if not ps.plans:
-        res.count(tn + ":no_compiled_plan")
+        res.count(cn + ":no_compiled_plan")
         return
-    res.count(tn + ":with_compiled_plans")
+    res.count(cn + ":with_compiled_plans")
     pid = h(prep.rec)
     nontrivial = False
     sampled = False
     for fp in ps.plans:
         res.mon()
         res.case()
-        base = {
-            "case_key": key,
-            "tier": tier,
-            "compiler": tn,
-            "tags": prep.tags,
-            "recipe": prep.rec,
-            "compiled_plan": fp.names(),
-        }
+        base = {**H.witness_base(prep), "compiled_plan": fp.names()}
         steps, err = H.map_back_plan(prep, fp)
         if err is not None:
             mech = f"{tn}:map-back-raises:" + err.split()[2].rstrip(":") if err.startswith("map-back raises") else f"{tn}:map-back-not-an-instance-of-an-original-action"
@@ -116,17 +129,17 @@ def judge(prep, res):
         try:
             verdict, info = validate(prep.pb, steps)
         except Unsupported:
-            res.count(tn + ":plans_unsupported_by_oracle")
+            res.count(cn + ":plans_unsupported_by_oracle")
             continue
         if verdict == "dontcare":
-            res.count(tn + ":plans_dontcare")
+            res.count(cn + ":plans_dontcare")
             res.count("dontcare:" + str(info.get("reason")))
             continue
-        res.count(tn + ":plans_judged")
+        res.count(cn + ":plans_judged")
         if len(fp) >= 2 and H.rewritten_on_path(prep, fp, lab):
             nontrivial = True
         if len(steps) != len(fp):
-            res.count(tn + ":plans_with_compiler_introduced_steps")
+            res.count(cn + ":plans_with_compiler_introduced_steps")
         if verdict == "invalid":
             info.pop("states", None)
             mech, culprit = D.unsound_mechanism(prep, fp)
@@ -141,9 +154,9 @@ def judge(prep, res):
             res.sample({"compiler": tn, "tags": prep.tags, "problem": prep.rec, "compiled_plan": fp.names(), "mapped_plan": H.step_names(steps), "verdict": "valid on the original"})
     if nontrivial:
         res.nt((tn, pid))
-        res.count(tn + ":nontrivial_pairs")
+        res.count(cn + ":nontrivial_pairs")
     for t in prep.tags:
-        res.count(f"tag:{tn}:{t}")
+        res.count(f"tag:{cn}:{t}")
 
 
 def thresholds(m):
@@ -158,6 +171,8 @@ def thresholds(m):
         rej = sum(v for k, v in c.items() if k.startswith(tn + ":compile_rejected"))
         if comp + rej and rej > comp:
             out.append(f"more than 50% of the {tn} cases were rejected by the compiler ({rej} of {comp + rej})")
+    # corpus part (thorough tier only): a run whose corpus part judged (almost) nothing is inconclusive
+    out.extend(H.corpus_thresholds(c, ("plans_judged",)))
     return out
 
 
@@ -168,4 +183,5 @@ def extra_coverage(m):
             tn: {k[len(tn) + 1 :]: v for k, v in sorted(c.items()) if k.startswith(tn + ":")} for tn in H.TARGET_NAMES
         },
         "dont_care_counts": {k: v for k, v in c.items() if k.startswith("dontcare:")},
+        "corpus": H.corpus_coverage(c),
     }
